@@ -434,10 +434,16 @@ def oracle(ctx, hints, effort):
         if r:
             add(r[0], f"eigen-solver failure at (layer, mode, coherent)={r[1]}: expected {r[2]}, got {r[3]}",
                 {"kind": "faults", "scene": sc, "active": active, "m_max": mmax}, r[3], r[2])
-    for it in range(3 if effort == "routine" else 30):
+    for it in range(-2, 3 if effort == "routine" else 30):
         active = it % 3 == 2
         sc = scenes.random_scene(rng, lossless=False, microstructure="exponential", max_layers=4, atmosphere=False, active=active, thick=(0.05, 5.0))
         sc["emmodel"], sc["nmax"] = "iba", int(rng.choice([16, 32]))
+        if it < 0:
+            # weak scattering at L band on an ordinary deep pack: the couplings between streams are tiny (1e-11 .. 1e-3 1/m) but not zero
+            active = False
+            sc = scenes.random_scene(rng, nlayer=4 + it, lossless=False, microstructure="sticky_hard_spheres", atmosphere=False, substrate="flat",
+                                     frequency=1.4e9, thick=(0.2, 3.0))
+            sc["emmodel"], sc["nmax"] = "iba", [16, 32][it]
         try:
             evals += 1
             r = check_methods(sc, active)
